@@ -247,10 +247,11 @@ func TestC08(t *testing.T) {
 			opName := ""
 			level := 0
 			usesTwo := false
+			namesStranger := false // the forgery names a router the victim has never heard of
 			rebuild := func(ls []c08Layer) {
 				data = append(data[:parts.apxStart:parts.apxStart], c08Build(ls, attacker, ctx)...)
 			}
-			op := c.Weighted("op", 8, 6, 8, 5, 6, 5, 5, 7, 8, 5, 4, 7, 3, 3, 6, 6)
+			op := c.Weighted("op", 8, 6, 8, 5, 6, 5, 5, 7, 9, 5, 4, 7, 3, 3, 9, 6)
 			switch op {
 			case 0:
 				i := c.Uniform("flip.body", parts.msgStart, parts.authStart-1)
@@ -372,6 +373,7 @@ func TestC08(t *testing.T) {
 					var who *ids.Identity
 					if c.Bool("reattr.foreign") {
 						who = foreign
+						namesStranger = true
 					} else {
 						who = ms.nodes[c.Pick("reattr.node", topo.n)].ID
 					}
@@ -471,6 +473,9 @@ func TestC08(t *testing.T) {
 				}
 				if len(layers) >= 1 && len(cands) > 0 {
 					who := cands[c.Pick("forge.who", len(cands))]
+					if c.Chance("forge.stranger", 1, 3) {
+						who, namesStranger = foreign, true
+					}
 					j := c.Int("forge.j", 1, len(layers))
 					pa := who.Addr.PublicAddress
 					pa.PublicKey = attacker.Addr.PublicKey
@@ -515,6 +520,24 @@ func TestC08(t *testing.T) {
 					c.Fatalf("forgery %q (%s) was forwarded to %d peer(s)", opName, why, forwarded)
 				}
 				c.Class("rejected/" + opName)
+				if namesStranger || c.Chance("again", 1, 3) {
+					// The same forgery once more: the rejected first delivery must not have
+					// left anything behind that lets the second one pass.
+					res2 := ms.vn.Inject(V, deliverLink, data)
+					after2 := snapshotNode(V, all)
+					forwarded2 := len(ms.vn.Queue) - qBefore
+					ms.vn.Queue = ms.vn.Queue[:qBefore]
+					if res2.Panicked {
+						c.Fatalf("second delivery of forgery %q panicked a worker of the victim: %v", opName, ms.vn.Panics)
+					}
+					if d := diffSnap(before, after2, true); len(d) > 0 {
+						c.Fatalf("forgery %q (%s) was rejected at first, but its second delivery changed the victim's state: %v", opName, why, d)
+					}
+					if forwarded2 > 0 {
+						c.Fatalf("forgery %q (%s) was rejected at first, but its second delivery was forwarded", opName, why)
+					}
+					c.Class("rejected-twice/" + opName)
+				}
 			} else {
 				accepted := res.ParseErr == nil && res.SwitchErr == nil && len(res.RouterErrs) == 0
 				if accepted {
